@@ -70,6 +70,14 @@ pub struct System {
     pub programs: Vec<Vec<Op>>,
 }
 
+/// Optional knobs of one execution (defaults: shim root = hub root, cwd inherited).
+#[derive(Default, Clone)]
+pub struct Knobs {
+    /// VSHIM_ROOT override (e.g. "/" to have EVERY path-taking libc call announced)
+    pub shim_root: Option<String>,
+    pub cwd: Option<PathBuf>,
+}
+
 // ───────────────────────── one controlled server ─────────────────────────
 
 #[derive(Clone, Debug, PartialEq)]
@@ -197,7 +205,7 @@ impl Srv {
 }
 
 /// Parse as many complete replies as are available; `kinds[i]` tells whether reply i belongs to a Get.
-fn parse_replies(buf: &[u8], from: usize) -> (Vec<Result<Reply, String>>, usize) {
+pub fn parse_replies(buf: &[u8], from: usize) -> (Vec<Result<Reply, String>>, usize) {
     let mut out = Vec::new();
     let mut pos = from;
     loop {
@@ -271,9 +279,12 @@ pub struct Exec {
     pub labels: Vec<String>,
     pub killed: Option<usize>,
     pub kill_pre_tree: Option<Files>,
+    /// every announced call after the handshake: (client, call, path1, path2)
+    pub calls: Vec<(usize, String, String, String)>,
 }
 
 pub struct RunOpts<'a> {
+    pub knobs: Knobs,
     pub prefix: &'a [u8],
     pub allow_kill: bool,
     /// oracle evaluated after every step on the hub tree; returns a violation (kind, message)
@@ -298,13 +309,17 @@ pub fn run_schedule(env: &WorkerEnv, sys: &System, opts: &RunOpts) -> Exec {
     let n = sys.programs.len();
     let mut children = Vec::new();
     for i in 0..n {
-        let c = std::process::Command::new(cli_bin())
+        let mut cmd = std::process::Command::new(cli_bin());
+        if let Some(d) = &opts.knobs.cwd {
+            cmd.current_dir(d);
+        }
+        let c = cmd
             .arg("serve")
             .arg(&env.root)
             .env("LD_PRELOAD", crate::e3::SHIM)
             .env("VSHIM_MODE", "sched")
             .env("VSHIM_SOCK", &env.sock_path)
-            .env("VSHIM_ROOT", &env.root)
+            .env("VSHIM_ROOT", opts.knobs.shim_root.clone().unwrap_or_else(|| env.root.to_string_lossy().into_owned()))
             .env("VSHIM_CLIENT_ID", i.to_string())
             .env("TOKIO_WORKER_THREADS", "1")
             .env("RUST_LOG", "off")
@@ -371,7 +386,7 @@ pub fn run_schedule(env: &WorkerEnv, sys: &System, opts: &RunOpts) -> Exec {
         s.trace.clear();
     }
 
-    let mut ex = Exec { choices: Vec::new(), points: Vec::new(), ops: Vec::new(), final_tree: Files::new(), deadlock: false, exit_codes: vec![None; n], signals: vec![None; n], instant_violation: None, reply_errors: Vec::new(), steps: 0, labels: Vec::new(), killed: None, kill_pre_tree: None };
+    let mut ex = Exec { choices: Vec::new(), points: Vec::new(), ops: Vec::new(), final_tree: Files::new(), deadlock: false, exit_codes: vec![None; n], signals: vec![None; n], instant_violation: None, reply_errors: Vec::new(), steps: 0, labels: Vec::new(), killed: None, kill_pre_tree: None, calls: Vec::new() };
     let mut current: Option<usize> = None;
     let mut preemptions = 0u32;
     let mut lock_holder: Option<usize> = None;
@@ -490,6 +505,7 @@ pub fn run_schedule(env: &WorkerEnv, sys: &System, opts: &RunOpts) -> Exec {
                 }
             }
             Parked::At(call, p1, p2) => {
+                ex.calls.push((t, call.clone(), unesc_path(&p1), unesc_path(&p2)));
                 label = format!("{t}: {call} {}{}", norm_name(p1.rsplit('/').next().unwrap_or("")), if p2 != "-" { format!(" -> {}", norm_name(p2.rsplit('/').next().unwrap_or(""))) } else { String::new() });
             }
             Parked::Blocked => label = format!("{t}: retry lock"),
@@ -561,6 +577,27 @@ pub fn run_schedule(env: &WorkerEnv, sys: &System, opts: &RunOpts) -> Exec {
     ex.steps = step_no;
     ex.final_tree = snapshot_hub(&env.root);
     ex
+}
+
+fn unesc_path(s: &str) -> String {
+    if s == "-" {
+        return String::new();
+    }
+    let b = s.as_bytes();
+    let mut out = Vec::new();
+    let mut i = 0;
+    while i < b.len() {
+        if b[i] == b'\\' && i + 3 < b.len() && b[i + 1] == b'x' {
+            if let Ok(v) = u8::from_str_radix(&s[i + 2..i + 4], 16) {
+                out.push(v);
+                i += 4;
+                continue;
+            }
+        }
+        out.push(b[i]);
+        i += 1;
+    }
+    String::from_utf8_lossy(&out).into_owned()
 }
 
 /// Staging names carry the server's pid: normalise them so that labels are comparable across runs.
@@ -646,7 +683,7 @@ pub fn explore(
                         busy.fetch_sub(1, Ordering::SeqCst);
                         continue;
                     }
-                    let ex = run_schedule(&env, sys, &RunOpts { prefix: &prefix, allow_kill, instant });
+                    let ex = run_schedule(&env, sys, &RunOpts { knobs: Knobs::default(), prefix: &prefix, allow_kill, instant });
                     schedules.fetch_add(1, Ordering::Relaxed);
                     steps.fetch_add(ex.steps as u64, Ordering::Relaxed);
                     maxp.fetch_max(ex.points.len() as u64, Ordering::Relaxed);
